@@ -365,18 +365,34 @@ def operator_index(x):
 
 
 def sym_issparse(x):
-    return isinstance(x, SymCOO) or _sp.issparse(x)
+    from . import sparse as _ss
+    return isinstance(x, (SymCOO, _ss.SymSp)) or _sp.issparse(x)
 
 
 def sym_isspmatrix(x):
-    return isinstance(x, SymCOO) or _sp.isspmatrix(x)
+    from . import sparse as _ss
+    return isinstance(x, (SymCOO, _ss.SymSp)) or _sp.isspmatrix(x)
 
 
 def sym_spsolve(A, b, *a, **k):
     if not core.active():
         return _spl.spsolve(A, b, *a, **k)
-    if isinstance(A, SymCOO):
+    from . import sparse as _ss
+    if isinstance(A, (SymCOO, _ss.SymSp)):
         A = A.toarray()
+    if isinstance(b, _ss.SymSp):
+        # scipy: a sparse right-hand side with ONE column gives a 1-D ndarray, with several columns a csc sparse ARRAY
+        # (whose sum(axis=1) is 1-D, unlike a sparse matrix)
+        bd = b.toarray()
+        if bd.shape[1] == 1:
+            return sym_solve(A, bd.reshape(-1)) if (has_sym(A) or has_sym(bd)) else \
+                wrap(_np.linalg.solve(unwrap(A), unwrap(bd).reshape(-1)))
+        cols = [sym_solve(A, bd[:, j]) if (has_sym(A) or has_sym(bd)) else wrap(_np.linalg.solve(unwrap(A), unwrap(bd)[:, j]))
+                for j in range(bd.shape[1])]
+        X = funcs.np_stack(cols, axis=1) if hasattr(funcs, 'np_stack') else funcs.np_array([[cells_of(c)[i] for c in cols] for i in range(bd.shape[0])], dtype=float)
+        r = _ss.CLASSES['csc'](X)
+        r._array_api = True
+        return r
     if not has_sym(A) and not has_sym(b):
         import warnings
         with warnings.catch_warnings():
@@ -487,6 +503,15 @@ class _SparseProxy:
 
     def __getattr__(self, n):
         real = getattr(_sp, n)
+        if n.endswith('_matrix') and n[:-7] in ('csr', 'csc', 'lil', 'dok', 'dia', 'bsr'):
+            from . import sparse as _ss
+            cls = _ss.CLASSES[n[:-7]]
+
+            def sctor(*a, **k):
+                if not core.active():
+                    return real(*a, **k)
+                return cls(*a, **k)
+            return sctor
         if isinstance(real, type):
             def ctor(*a, **k):
                 if core.active() and (has_sym(list(a)) or has_sym(k)):
